@@ -368,6 +368,8 @@ class SimFile:
             finally:
                 # closing makes the buffered content the file's content (still no fsync in the library)
                 self.fs.files[self.path] = bytes(self.buf)
+                self.fs.now += self.fs.tick
+                self.fs.mtime[self.path] = self.fs.now
                 self.fs.volatile.pop(self.path, None)
                 self.fs.open_for_write.discard(self.path)
                 self.fs.events.append(("close", self.path))
@@ -387,6 +389,9 @@ class SimFS:
         self.open_for_write = set()
         self.written = {}
         self.events = []       # ("open_r"|"open_w"|"write"|"close", path, ...)
+        self.mtime = {}        # path -> simulated modification time (seconds)
+        self.now = 1700000000.0
+        self.tick = 0.3        # simulated seconds that pass per write-closing operation
         self.plan = {}         # op-counter -> fault
         self.counter = 0
         self.fired = []
@@ -436,6 +441,46 @@ class SimFS:
     # --- harness-side helpers (no fault plan) -----------------------------------------------
     def put(self, path, data):
         self.files[path] = bytes(data)
+        self.now += self.tick
+        self.mtime[path] = self.now
+
+    # --- stat seam: code that asks the OS about a simulated file gets simulated answers ---------------
+    def install_stat(self, patcher):
+        """Route os.stat / os.path.{exists,isfile,getsize,getmtime} through the simulated file system for simulated
+        paths (anything else falls through to the real OS).  A cache keyed on stat() results is a realistic change
+        to file-handling code; without this seam it would escape to the real disk."""
+        import os as _os
+        import stat as _stat
+        fs = self
+        real_stat = _os.stat
+
+        def sim_stat(path, *a, **kw):
+            try:
+                p = _os.fspath(path)
+            except TypeError:
+                return real_stat(path, *a, **kw)
+            if isinstance(p, bytes):
+                p = p.decode("utf-8", "surrogateescape")
+            rel = p
+            cwd = _os.getcwd()
+            if p.startswith(cwd + _os.sep):
+                rel = p[len(cwd) + 1:]
+            if rel in fs.files:
+                m = fs.mtime.get(rel, fs.now)
+                ns = int(round(m * 1e9))
+                return _os.stat_result((_stat.S_IFREG | 0o644, hash(rel) & 0xFFFFFF, 1, 1, 0, 0, len(fs.files[rel]), int(m), int(m), int(m),
+                                        m, m, m, ns, ns, ns))
+            if rel in fs.dirs:
+                return _os.stat_result((_stat.S_IFDIR | 0o755, 1, 1, 1, 0, 0, 0, 0, 0, 0))
+            return real_stat(path, *a, **kw)
+
+        patcher.set(_os, "stat", sim_stat)
+        import genericpath
+        for mod in (genericpath, _os.path):
+            patcher.set(mod, "exists", lambda p, _s=sim_stat: _try(_s, p) is not None)
+            patcher.set(mod, "isfile", lambda p, _s=sim_stat: (lambda r: r is not None and _stat.S_ISREG(r.st_mode))(_try(_s, p)))
+            patcher.set(mod, "getsize", lambda p, _s=sim_stat: _s(p).st_size)
+            patcher.set(mod, "getmtime", lambda p, _s=sim_stat: _s(p).st_mtime)
 
     def get(self, path):
         return self.files.get(path)
@@ -449,6 +494,13 @@ class SimFS:
         outs.append(b"")
         outs.append(cur)
         return outs
+
+
+def _try(f, p):
+    try:
+        return f(p)
+    except (OSError, ValueError, TypeError):
+        return None
 
 
 # ---------------------------------------------------------------------------------- clock
